@@ -48,7 +48,7 @@ UNIT = dict(
         'p->~T() is the stub O_destroy; by-reference parameters are pointers; operator= returns void; CRTP self() is this; '
         'thread_local local_free_list() is one struct; Traits::thread_local_free_list_size is a symbolic size_t; ::operator new is a stub',
   assumptions=[
-    'stub ~T() (O_destroy): the user destructor; enable_concurrent_ptr::~enable_concurrent_ptr sets destroyed (header lines 120-123, not extracted)',
+    'stub ~T() (O_destroy): the user destructor (arbitrary, no access to the header) followed by the real ~enable_concurrent_ptr (extracted: sets destroyed)',
     'free_list::pop: `guard = acquire_guard(head, order)` is modelled by the macro XV_ASSIGN_ACQUIRE_GUARD = temporary guard, real acquire, real move assignment, real destructor of the temporary (acquire_guard.hpp:21-25 and the C++ value semantics of the returned prvalue are not extracted); the implicit destructor of the local guard is inserted by the unit-local RAII rule; operator new uses a contract stub of free_list::pop',
     'ABA freedom of the free list (a guarded node cannot re-enter the list, hence a successful head CAS implies the next pointer read is current) is the composition lemma of Valois / Michael-Scott, not decided here',
     'stub is_destroyed()/refs(): one-line header accessors (destroyed flag; count >> 1)',
@@ -60,6 +60,14 @@ UNIT = dict(
   consts=[dict(name='XV_INC', file=H, regex=r'static constexpr unsigned RefCountInc = ([^;]+);'),
           dict(name='XV_CLAIM', file=H, regex=r'static constexpr unsigned RefCountClaimBit = ([^;]+);')],
   sources=[
+    # header accessors, constructor and destructor of enable_concurrent_ptr (real text; getHeader() arithmetic is the identity on the one-struct object model)
+    dict(id='hdr_refs', file=H, sig=r'unsigned refs\(\) const', c_sig='static unsigned lfrc_hdr_refs(struct obj* self)', pre_subst=[(r'getHeader\(\)', 'XV_HDR(self)', 'getHeader')], must_fire={'A_LOAD': 1, 'subst:getHeader': 1}),
+    dict(id='hdr_is_destroyed', file=H, sig=r'bool is_destroyed\(\) const', c_sig='static _Bool lfrc_hdr_is_destroyed(struct obj* self)', pre_subst=[(r'getHeader\(\)', 'XV_HDR(self)', 'getHeader')], must_fire={'A_LOAD': 1, 'subst:getHeader': 1}),
+    dict(id='hdr_ref_count', file=H, sig=r'std::atomic<unsigned>& ref_count\(\)', c_sig='static unsigned* lfrc_hdr_ref_count(struct obj* self)', ret_ref=True, pre_subst=[(r'getHeader\(\)', 'XV_HDR(self)', 'getHeader')], must_fire={'subst:getHeader': 1}),
+    dict(id='hdr_destroyed', file=H, sig=r'std::atomic<bool>& destroyed\(\)', c_sig='static _Bool* lfrc_hdr_destroyed(struct obj* self)', ret_ref=True, pre_subst=[(r'getHeader\(\)', 'XV_HDR(self)', 'getHeader')], must_fire={'subst:getHeader': 1}),
+    dict(id='hdr_next_free', file=H, sig=r'concurrent_ptr<T, N>& next_free\(\)', c_sig='static mptr* lfrc_hdr_next_free(struct obj* self)', ret_ref=True, pre_subst=[(r'getHeader\(\)', 'XV_HDR(self)', 'getHeader')], must_fire={'subst:getHeader': 1}),
+    dict(id='ecp_ctor', file=H, sig=r'enable_concurrent_ptr\(\) noexcept(?=\s*\{)', c_sig='static void lfrc_ecp_ctor(struct obj* self)', self_calls={'destroyed': '*lfrc_hdr_destroyed'}, must_fire={'A_STORE': 1}),
+    dict(id='ecp_dtor', file=H, sig=r'virtual ~enable_concurrent_ptr\(\) noexcept', c_sig='static void lfrc_ecp_dtor(struct obj* self)', self_calls={'destroyed': '*lfrc_hdr_destroyed', 'is_destroyed': 'lfrc_hdr_is_destroyed'}, must_fire={'A_STORE': 1}),
     dict(id='decrement_refcnt', file=I, sig=r'bool ' + QE + r'decrement_refcnt\(\)',
          c_sig='static _Bool lfrc_decrement_refcnt(struct obj* self)', self_calls={'ref_count': 'O_self_ref_count'},
          cut_loops={0: 'DEC'}, must_fire={'A_LOAD': 1, 'A_CASW': 1, 'self_call:ref_count': 2, 'cut_loop': 1}),
@@ -128,6 +136,7 @@ UNIT = dict(
   ],
   runs=[
     dict(id='layout', entry='h_layout', cls='unbounded'),
+    dict(id='hdr', entry='h_hdr', cls='unbounded', note='header accessors / constructor / destructor of enable_concurrent_ptr, every header word'),
     dict(id='decrement', entry='h_decrement', cls='unbounded', note='every 32-bit count word; retry loop cut by invariant DEC'),
     dict(id='decrement_int', entry='h_decrement', mode='INT', cls='unbounded', note='the count changes between the load and the CAS; weak CAS may fail spuriously'),
     dict(id='g_ctor', entry='h_g_ctor', cls='unbounded'),
@@ -158,6 +167,7 @@ UNIT = dict(
   ],
   loop_obligation={'DEC': 'lfrc.decrement.claims_once', 'ACQ': 'lfrc.acquire.inc_then_validate', 'ADDN': 'lfrc.freelist.push_links', 'FLPOP': 'lfrc.freelist.pop_owns'},
   obligations={
+    'lfrc.header.accessors': dict(deciding=True, text='refs() is the count without the claim bit, is_destroyed() the destroyed flag; ref_count()/destroyed()/next_free() name the three header fields; the constructor clears destroyed, the destructor sets it, neither touches the count or the free-list link'),
     'lfrc.layout': dict(deciding=True, text='the extracted constants give the word layout the code relies on: claim bit = LSB, count above it (RefCountClaimBit == 1, RefCountInc == 2)'),
     'lfrc.decrement.claims_once': dict(deciding=True, text='[SEQ+INT] for every 32-bit count word e replaced by the successful CAS: decrement_refcnt returns true iff the count part of e is 1 and the claim bit clear; the new word has count-1 and the claim bit set iff it was set or the call returned true (true => new word == RefCountClaimBit); exactly one CAS succeeds and nothing else is written'),
     'lfrc.decrement.holds_reference': dict(deciding=True, text='every call of decrement_refcnt made by a guard operation drops a reference this thread holds (count >= 1)'),
@@ -175,7 +185,7 @@ UNIT = dict(
   },
   replays={'lfrc.decrement.claims_once': dict(src='replay_decrement.cpp'), 'lfrc.guard.algebra': dict(src='replay_guard.cpp'),
            'lfrc.reset.destroy_iff_claimed': dict(src='replay_guard.cpp'), 'lfrc.reclaim.once': dict(src='replay_guard.cpp')},
-  canaries=['add_nodes.chain', 'add_nodes.single', 'decrement.already_claimed', 'decrement.claimed', 'decrement.shared', 'decrement.underflow_value', 'fl_pop.after_retry', 'fl_pop.empty', 'fl_pop.node', 'fl_push.global', 'fl_push.local', 'g_acquire.fresh', 'g_acquire.mark_only', 'g_acquire.null_drop', 'g_acquire.replace', 'g_aie.changed_undone', 'g_aie.false_drop', 'g_aie.true', 'g_aie.true_null', 'g_copy_assign.gains', 'g_copy_assign.last_reference', 'g_copy_assign.same_object', 'g_copy_assign.self', 'g_copy_ctor.nonnull', 'g_ctor.mark_only', 'g_ctor.nonnull', 'g_move_assign.last_reference', 'g_move_assign.same_object', 'g_move_assign.self', 'g_move_ctor.nonnull', 'g_reclaim.empty', 'g_reclaim.last', 'g_reclaim.still_guarded', 'g_reset.destroys', 'g_reset.frees_already_destroyed', 'g_reset.mark_only', 'g_reset.shared', 'g_reset_composed.global', 'g_reset_composed.local', 'g_reset_composed.shared', 'g_swap.done', 'op_delete.freed', 'op_delete.still_guarded', 'op_new.fresh', 'op_new.reused', 'op_new_composed.fresh', 'op_new_composed.global', 'op_new_composed.local', 'op_new_composed.local_disabled', 'tl_dtor.empty', 'tl_dtor.hands_over', 'tl_pop.empty', 'tl_pop.longest', 'tl_pop.node', 'tl_push.full', 'tl_push.stored'],
+  canaries=['hdr.ctor', 'hdr.dtor', 'add_nodes.chain', 'add_nodes.single', 'decrement.already_claimed', 'decrement.claimed', 'decrement.shared', 'decrement.underflow_value', 'fl_pop.after_retry', 'fl_pop.empty', 'fl_pop.node', 'fl_push.global', 'fl_push.local', 'g_acquire.fresh', 'g_acquire.mark_only', 'g_acquire.null_drop', 'g_acquire.replace', 'g_aie.changed_undone', 'g_aie.false_drop', 'g_aie.true', 'g_aie.true_null', 'g_copy_assign.gains', 'g_copy_assign.last_reference', 'g_copy_assign.same_object', 'g_copy_assign.self', 'g_copy_ctor.nonnull', 'g_ctor.mark_only', 'g_ctor.nonnull', 'g_move_assign.last_reference', 'g_move_assign.same_object', 'g_move_assign.self', 'g_move_ctor.nonnull', 'g_reclaim.empty', 'g_reclaim.last', 'g_reclaim.still_guarded', 'g_reset.destroys', 'g_reset.frees_already_destroyed', 'g_reset.mark_only', 'g_reset.shared', 'g_reset_composed.global', 'g_reset_composed.local', 'g_reset_composed.shared', 'g_swap.done', 'op_delete.freed', 'op_delete.still_guarded', 'op_new.fresh', 'op_new.reused', 'op_new_composed.fresh', 'op_new_composed.global', 'op_new_composed.local', 'op_new_composed.local_disabled', 'tl_dtor.empty', 'tl_dtor.hands_over', 'tl_pop.empty', 'tl_pop.longest', 'tl_pop.node', 'tl_push.full', 'tl_push.stored'],
 )
 
 # ---- SOLO termination (C16): three of the four functions (free_list::pop with its nested acquire loop did not finish within 20 min when its loops are kept: it stays INT-cut only and contributes no termination fact)
